@@ -38,6 +38,8 @@ def run(chk: Check) -> None:
     run_watchers_see_everything(chk, ix)
     run_state_asks_about_its_own_module(chk, ix)
     run_severity_by_first_marker(chk, ix)
+    from .c07 import run_line_spans_inclusive
+    run_line_spans_inclusive(chk, ix, "R13.15")
     aei = ix.func("mypy.errors.Errors.add_error_info")
     g = CFG(aei.node)
 
